@@ -805,3 +805,41 @@ func H_C09_commentInValues(slot, blank, n int) {
 	marker := c09CommentText(n)
 	c09CheckComment(c09Fill(c09ValuesTemplate, slot, marker, blank != 0), marker, true)
 }
+
+// floats around the ends of the ranges in which numbers are written without an
+// exponent (2^63: the largest integer the tokenizer reads; 1e21, 1e-6)
+var c16RangeFloats = []string{
+	"1234567.0", "4e18", "9223372036854775807.0", "9223372036854775808.0", "1.2345678901234567e+19", "1e19", "1e20",
+	"123456789012345680000.0", "1e21", "1e22", "-1e19", "-9223372036854775808.0", "-1.5e19", "0.000001", "1e-7", "2.5e-10",
+}
+
+// H_C16_floatRange(i): a float literal of large or small magnitude goes to
+// invocation JSON and back to MRO text.
+//
+//	C16: the JSON reads back as a number with exactly the same value (large
+//	     integers and floats survive).
+func H_C16_floatRange(i int) {
+	var parser Parser
+	v, err := parser.ParseValExp([]byte(c16RangeFloats[i]))
+	fe, ok := v.(*FloatExp)
+	if err != nil || !ok {
+		verifAssert(false, "C16: the float fixture parses as a float")
+		return
+	}
+	var buf bytes.Buffer
+	verifAssert(fe.EncodeJSON(&buf) == nil, "C16: a float encodes")
+	verifCover("float of extreme magnitude encoded")
+	back, err := parser.ParseValExp(buf.Bytes())
+	verifAssert(err == nil, "C16: the JSON written for a float of any magnitude reads back as MRO text")
+	if err != nil {
+		return
+	}
+	switch b := back.(type) {
+	case *FloatExp:
+		verifAssert(b.Value == fe.Value, "C16: a float survives text -> JSON -> text with every digit (float64)")
+	case *IntExp:
+		verifAssert(float64(b.Value) == fe.Value, "C16: an integral float may read back as the same integer")
+	default:
+		verifAssert(false, "C16: the JSON of a float reads back as a number")
+	}
+}
